@@ -26,7 +26,7 @@ theorem floatDistance32_bv (x y : UInt32) :
     (glmFloatDistance32 x y).toBitVec.signExtend 64 =
       (if (absDiff64 (toTwos32 x).toBitVec (toTwos32 y).toBitVec).sle 0x7FFFFFFF#64
        then absDiff64 (toTwos32 x).toBitVec (toTwos32 y).toBitVec else 0x7FFFFFFF#64) := by
-  unfold glmFloatDistance32 absI32 ftNegative32 absDiff64 toTwos32 sign32 mag32; bv_decide
+  unfold glmFloatDistance32 absI32 ftNegative32 absDiff64 toTwos32 sign32 mag32; bv_decide (config := { timeout := 180 })
 
 /-- the returned `int` is the number of representable values between x and y, saturated -/
 theorem floatDistance32_eq_spec (x y : UInt32) :
@@ -42,11 +42,11 @@ theorem floatDistance32_eq_spec (x y : UInt32) :
     rw [c]; omega
 
 theorem floatDistance32_symm (x y : UInt32) : glmFloatDistance32 x y = glmFloatDistance32 y x := by
-  unfold glmFloatDistance32 absI32 ftNegative32; bv_decide
+  unfold glmFloatDistance32 absI32 ftNegative32; bv_decide (config := { timeout := 180 })
 
 /-- no signed subtraction/negation/addition inside `floatDistance` overflows (no undefined behaviour) -/
 theorem floatDistance32_no_overflow (x y : UInt32) : floatDistanceOverflows32 x y = false := by
-  unfold floatDistanceOverflows32 ftNegative32; bv_decide
+  unfold floatDistanceOverflows32 ftNegative32; bv_decide (config := { timeout := 180 })
 
 /-- C14: `floatDistance(x, nextFloat(x, n)) = n` -/
 theorem floatDistance32_nextN (x : UInt32) (n : Nat) (hx : isNaN32 x = false)
@@ -65,7 +65,7 @@ theorem floatDistance32_prevN (x : UInt32) (n : Nat) (hx : isNaN32 x = false)
 
 theorem preFixFloatDistance32_partial (x y : UInt32) (h : sign32 x = sign32 y) :
     preFixFloatDistance32 x y = glmFloatDistance32 x y := by
-  unfold preFixFloatDistance32 glmFloatDistance32 ftNegative32 sign32 at *; bv_decide
+  unfold preFixFloatDistance32 glmFloatDistance32 ftNegative32 sign32 at *; bv_decide (config := { timeout := 180 })
 theorem preFixFloatDistance32_refuted :
     ¬ ∀ x y : UInt32, (preFixFloatDistance32 x y).toBitVec.toInt = distSpec32 x y := by
   intro h; have := h 0x80000000 0x00000001
@@ -85,7 +85,7 @@ theorem floatDistance64_bv (x y : UInt64) :
     (glmFloatDistance64 x y).toBitVec.signExtend 128 =
       (if (absDiff128 (toTwos64 x).toBitVec (toTwos64 y).toBitVec).sle 0x7FFFFFFFFFFFFFFF#128
        then absDiff128 (toTwos64 x).toBitVec (toTwos64 y).toBitVec else 0x7FFFFFFFFFFFFFFF#128) := by
-  unfold glmFloatDistance64 absI64 ftNegative64 absDiff128 toTwos64 sign64 mag64; bv_decide
+  unfold glmFloatDistance64 absI64 ftNegative64 absDiff128 toTwos64 sign64 mag64; bv_decide (config := { timeout := 180 })
 
 /-- the returned `int` is the number of representable values between x and y, saturated -/
 theorem floatDistance64_eq_spec (x y : UInt64) :
@@ -101,11 +101,11 @@ theorem floatDistance64_eq_spec (x y : UInt64) :
     rw [c]; omega
 
 theorem floatDistance64_symm (x y : UInt64) : glmFloatDistance64 x y = glmFloatDistance64 y x := by
-  unfold glmFloatDistance64 absI64 ftNegative64; bv_decide
+  unfold glmFloatDistance64 absI64 ftNegative64; bv_decide (config := { timeout := 180 })
 
 /-- no signed subtraction/negation/addition inside `floatDistance` overflows (no undefined behaviour) -/
 theorem floatDistance64_no_overflow (x y : UInt64) : floatDistanceOverflows64 x y = false := by
-  unfold floatDistanceOverflows64 ftNegative64; bv_decide
+  unfold floatDistanceOverflows64 ftNegative64; bv_decide (config := { timeout := 180 })
 
 /-- C14: `floatDistance(x, nextFloat(x, n)) = n` -/
 theorem floatDistance64_nextN (x : UInt64) (n : Nat) (hx : isNaN64 x = false)
@@ -124,7 +124,7 @@ theorem floatDistance64_prevN (x : UInt64) (n : Nat) (hx : isNaN64 x = false)
 
 theorem preFixFloatDistance64_partial (x y : UInt64) (h : sign64 x = sign64 y) :
     preFixFloatDistance64 x y = glmFloatDistance64 x y := by
-  unfold preFixFloatDistance64 glmFloatDistance64 ftNegative64 sign64 at *; bv_decide
+  unfold preFixFloatDistance64 glmFloatDistance64 ftNegative64 sign64 at *; bv_decide (config := { timeout := 180 })
 theorem preFixFloatDistance64_refuted :
     ¬ ∀ x y : UInt64, (preFixFloatDistance64 x y).toBitVec.toInt = distSpec64 x y := by
   intro h; have := h 0x8000000000000000 0x0000000000000001
